@@ -20,6 +20,7 @@ from pytato.scalar_expr import (
 )
 from pytato.utils import (
     are_shape_components_equal,
+    are_shapes_equal,
     get_indexing_expression,
     get_shape_after_broadcasting,
 )
@@ -149,7 +150,8 @@ def _as_array_or_scalar(exprs: Sequence[ScalarExpression],
     """
 
     result: list[ArrayOrScalar] = []
-    if out_shape != get_shape_after_broadcasting(bindings.values()):
+    if not are_shapes_equal(out_shape,
+                            get_shape_after_broadcasting(bindings.values())):
         raise UnknownIndexLambdaExpr()
 
     binding_to_subscript = {bnd_name: p.Subscript(
